@@ -190,6 +190,9 @@ def World.onAck (w : World) (toks : List String) : World :=
       w.setStore p s'
   else
     let n := entryNum r
+    -- C07: deleting an absent key is refused (the view before this write does not hold the key)
+    let w := if w.pending.headD "" == "docdel" && (KV.get (w.store p).idx (unhex (w.pending.getD 2 ""))).isNone then
+        w.fail "C07" "delete" s!"peer {p}: Delete of the absent key {w.pending.getD 2 ""} was accepted (e{n} appended); view: {showKV (w.store p).idx}" else w
     let w := { w with acked := n :: w.acked }
     let w := w.setDurable (w.key p) (n :: w.durableOf (w.key p))
     let w := w.modelAdd p n
